@@ -55,6 +55,7 @@ type denv struct {
 	failStatus             bool            // queue.markDisrupted: the DisruptionReason status patch fails
 	nFailDeletes           int             // deprovisioning: deleting this many NodeClaims fails (persistently)
 	failedDeletes          map[string]bool // the claims whose delete failed
+	repicked               map[string]bool // candidates that were terminating already (stale cluster-state entry)
 	inReconcile            bool
 	noPods                 bool
 	hook                   func() // run once from inside the next NodeClaim Create
@@ -90,7 +91,7 @@ func (e *denv) boot() {
 }
 
 func newDenv(c *kit.Ctx, r *kit.Rand) *denv {
-	e := &denv{ctx: kit.Context(), c: c, r: r, clk: clock.NewFakeClock(time.Unix(1_700_000_000, 0)), cp: fake.NewCloudProvider(), model: map[string]int{}, next: 1, failedDeletes: map[string]bool{}}
+	e := &denv{ctx: kit.Context(), c: c, r: r, clk: clock.NewFakeClock(time.Unix(1_700_000_000, 0)), cp: fake.NewCloudProvider(), model: map[string]int{}, next: 1, failedDeletes: map[string]bool{}, repicked: map[string]bool{}}
 	e.cl = kit.NewClient(interceptor.Funcs{
 		Create: func(ctx context.Context, w client.WithWatch, obj client.Object, opts ...client.CreateOption) error {
 			if _, ok := obj.(*v1.NodeClaim); ok {
@@ -144,8 +145,13 @@ func newDenv(c *kit.Ctx, r *kit.Rand) *denv {
 		},
 		Delete: func(ctx context.Context, w client.WithWatch, obj client.Object, opts ...client.DeleteOption) error {
 			if nc, ok := obj.(*v1.NodeClaim); ok {
+				cur := &v1.NodeClaim{}
+				already := w.Get(ctx, client.ObjectKeyFromObject(nc), cur) == nil && !cur.DeletionTimestamp.IsZero()
 				e.mu.Lock()
-				if e.inReconcile && !e.failedDeletes[nc.Name] && e.nFailDeletes > 0 {
+				if e.inReconcile && already { // picked from a stale cache entry: the claim is terminating already
+					e.repicked[nc.Name] = true
+				}
+				if e.inReconcile && !already && !e.failedDeletes[nc.Name] && e.nFailDeletes > 0 {
 					e.nFailDeletes--
 					e.failedDeletes[nc.Name] = true
 				}
@@ -409,13 +415,24 @@ func (e *denv) opDeprov(replicas int64, nfail int) {
 	}
 	np := e.pool()
 	e.mu.Lock()
-	e.nFailDeletes, e.failedDeletes, e.inReconcile = nfail, map[string]bool{}, true
+	e.nFailDeletes, e.failedDeletes, e.repicked, e.inReconcile = nfail, map[string]bool{}, map[string]bool{}, true
 	e.mu.Unlock()
 	_, _ = e.deprovC.Reconcile(e.ctx, np)
 	e.mu.Lock()
 	failed := len(e.failedDeletes)
-	e.nFailDeletes, e.failedDeletes, e.inReconcile = 0, map[string]bool{}, false
+	// the deprovisioning controller reads its candidates from the cluster state; until the informer has delivered the
+	// deletion, a claim it deleted in an earlier pass is picked again and uses up one of the active - replicas slots
+	stale := 0
+	for n := range e.repicked {
+		if lo.Contains(before.Deleting, n) {
+			stale++
+		}
+	}
+	e.nFailDeletes, e.failedDeletes, e.repicked, e.inReconcile = 0, map[string]bool{}, map[string]bool{}, false
 	e.mu.Unlock()
+	if stale > 0 {
+		e.c.Count("D:deprov:re-picked-a-terminating-claim(stale cache)")
+	}
 	after := e.dump()
 	var victims, gone, vnames []string
 	left := lo.Map(e.claims(), func(nc *v1.NodeClaim, _ int) string { return nc.Name })
@@ -430,7 +447,7 @@ func (e *denv) opDeprov(replicas int64, nfail int) {
 		}
 	}
 	// scale-down order (only when nothing failed): no survivor ranks strictly before a victim
-	if failed == 0 {
+	if failed == 0 && stale == 0 {
 		worst := -1
 		for _, v := range vnames {
 			if rk, ok := ranks[v]; ok && rk > worst {
@@ -446,8 +463,8 @@ func (e *denv) opDeprov(replicas int64, nfail int) {
 			e.c.Count("D:deprov:deleted-a-node-with-pods")
 		}
 	}
-	e.step(fmt.Sprintf("(DDeprov %s %s %s %d%%nat)", kit.GZ(replicas), kit.GList(victims), kit.GList(gone), failed),
-		fmt.Sprintf("DeprovisioningReconcile(replicas=%d, failing deletes=%d) deleted=%d", replicas, failed, len(victims)))
+	e.step(fmt.Sprintf("(DDeprov %s %s %s %d%%nat)", kit.GZ(replicas), kit.GList(victims), kit.GList(gone), failed+stale),
+		fmt.Sprintf("DeprovisioningReconcile(replicas=%d, failing deletes=%d, re-picked terminating=%d) deleted=%d", replicas, failed, stale, len(victims)))
 	switch {
 	case failed > 0:
 		e.c.Count("D:deprov:delete-failed")
